@@ -800,11 +800,11 @@ pub fn c07(run: &mut Run) {
 /// representable next to the end. Advance to total + k cycles (exactly representable) for k = -3..=1.
 pub fn c07_long_repeats(run: &mut Run) {
     let counts: [u32; 7] = [(1 << 24) - 2, (1 << 24) - 1, 1 << 24, (1 << 24) + 1, (1 << 25) + 3, (1 << 26) + 12, u32::MAX];
-    let cycles: [f32; 3] = [0.5, 1.0, 2.0];
+    let cycles: [f32; 5] = [0.5, 1.0, 2.0, 8.0, 16.0];
     let total = (counts.len() * cycles.len() * 5 * 2) as u64;
     run.enumerate(
         "c07_long_repeat_landing",
-        "repeat counts {2^24-2, 2^24-1, 2^24, 2^24+1, 2^25+3, 2^26+12, u32::MAX (landing k = 0 only: the neighbours are not representable)} x cycle {0.5, 1, 2} s x reverse on/off: one advance to exactly total + k cycles for k = -3..=1 (all exactly representable); is_ended must be (k >= 0) and never flip back; exhaustive over that set",
+        "repeat counts {2^24-2, 2^24-1, 2^24, 2^24+1, 2^25+3, 2^26+12, u32::MAX (landing k = 0 only: the neighbours are not representable)} x cycle {0.5, 1, 2, 8, 16} s (up to 6.9e10 s in total) x reverse on/off: one advance to exactly total + k cycles for k = -3..=1 (all exactly representable); is_ended must be (k >= 0) and never flip back; exhaustive over that set",
         total,
         4,
         true,
@@ -815,8 +815,8 @@ pub fn c07_long_repeats(run: &mut Run) {
                 code /= 2;
                 let k = (code % 5) as i32 - 3;
                 code /= 5;
-                let cycle = cycles[code % 3];
-                code /= 3;
+                let cycle = cycles[code % cycles.len()];
+                code /= cycles.len();
                 let n = counts[code % counts.len()];
                 let tl = TlDesc {
                     timing: Timing { cycle, delay: 0.0, repeat: Rep::Times(n), reverse },
